@@ -581,6 +581,10 @@ pub fn run(o: &Opts) -> Report {
                 let desc = format!("[{}]{} {}", backend, if removed_first { " after remove_dir(/c):" } else { "" }, ps.iter().map(|p| format!("create_dir_all({})", p)).collect::<Vec<_>>().join(" || "));
                 rep.sample(desc.clone());
                 let mut bad: Option<(String, Vec<usize>)> = None;
+                // schedules of this program replayed on the small-step model (all of them in the quick tier; bounded in
+                // the thorough tier, where 10 000 schedules x 18 path sets x 3 backends would be millions of driver lines)
+                let mut replayed = 0usize;
+                let replay_cap = 2500usize;
                 // every prefix of every requested path, observed after EVERY explored schedule
                 let mut prefixes: Vec<String> = vec![];
                 for p in ps {
@@ -597,7 +601,8 @@ pub fn run(o: &Opts) -> Report {
                 let r = explore(&prog, &scratch, &mut n, if backend == "ovl(mem,mem,mem)" && !o.thorough() { cap / 2 } else { cap }, &mut rng, |out| {
                     rep.evaluations += 1;
                     rep.distinct_hash(&format!("{}|{:?}", desc, out.schedule));
-                    if backend == "alt(mem)" {
+                    if backend == "alt(mem)" && replayed < replay_cap {
+                        replayed += 1;
                         // CORR (small-step model AltrootConc.lean): the same schedule, one token per call of the inner MemoryFS
                         let mut seen = vec![false; ps.len()];
                         let steps: Vec<String> = out
@@ -623,7 +628,8 @@ pub fn run(o: &Opts) -> Report {
                         oconc_cmp.push((out.schedule.clone(), imp));
                         oconc_desc.push(desc.clone());
                     }
-                    if backend.starts_with("ovl") {
+                    if backend.starts_with("ovl") && replayed < replay_cap {
+                        replayed += 1;
                         let three = backend == "ovl(mem,mem,mem)";
                         // CORR (small-step model OverlayConc.lean): the same schedule, one token per layer call
                         let mut seen = vec![false; ps.len()];
